@@ -20,6 +20,7 @@ RULE = ('programs: every arithmetic operator and compound assignment (name and i
         'over the pool. The oracle runs at every BinOp/UnaryOp/ShortOp exit and every numeric-builtin exit. Non-trivial = at least one '
         'monitored exit with a numeric operand was judged; distinct = distinct (source, host names).')
 RULE += ' Host numbers include int / float / Decimal subclasses and IntEnum members.'
+RULE += " One more workload: the repository's own test-suite, run in a worker process against the sandbox copy with this check's monitors installed (the tests' assertions are not the oracle, the monitors are)."
 ASSUMPTIONS = ['size of a Decimal = length of its coefficient; of an int = number of decimal digits; a float result counts as <= 17, a float '
                'argument as its exact decimal expansion',
                'for numeric operands, "raises an arithmetic error" = an ArithmeticError subclass (decimal signals, ZeroDivisionError, OverflowError)',
